@@ -54,7 +54,7 @@ class NestedProcessingTransformation(PreprocessingTransformation):
             raise SigmaConfigurationError("Nested pipeline has not enclosing pipeline.")
         # the items of the nested pipeline see the variables of the enclosing one
         self._nested_pipeline.vars = self._pipeline.vars
-        self._nested_pipeline.apply(rule)
+        self._nested_pipeline.apply(rule, self._pipeline.state)  # ... and start with its state
         self._pipeline.applied.extend(self._nested_pipeline.applied)
         self._pipeline.applied_ids.update(self._nested_pipeline.applied_ids)
         self._pipeline.field_name_applied_ids.update(self._nested_pipeline.field_name_applied_ids)
